@@ -7,6 +7,8 @@ HARNESS = "Go harness (vh) linked against /repo's working tree with -tags verif;
 PROPS = {
     "C15": {
         "module": "CqlVerif.Props.C15",
+        "claim": "Lean theorems over Model/LB (plan_exact, plan_no_duplicates, exhausted_forever, members_exact, rotation, fair_window, snapshot_stable) for all notification histories, host counts and counter values; the model is tied to proxycore/lb.go by a differential stream on the public API and by the PlanSpec oracle evaluated on the real outputs",
+        "note": "trusted: Lean kernel, hand-written model + correspondence generators, Go atomics/mutex semantics; concurrent interleavings of plan creation with notifications are not modelled",
         "streams": [{"name": "lb", "quick": 3000, "thorough": 300000}],
         "rule": "lb: notification histories over <=7 hosts with plans created/consumed at arbitrary points; exhaustive op lists over 2 hosts up to depth 5 (quick) / 7 (thorough), random histories up to 60 ops, counter jumps to the 2^32 and 2^64 wrap points through the VerifSetLBIndex hook; distinct = distinct op lists; non-trivial = contains at least one Next() call (all emitted cases do)",
         "trusted_base": [KERNEL, DRIVER, HARNESS,
@@ -15,4 +17,20 @@ PROPS = {
         "assumptions": ["host lists shorter than 2^63", "fewer than 2^64 plans per process (rotation theorem); exactly-once holds without this bound",
                         "the cluster announces Add only for keys that are not members (wfFrom)"],
     },
+    "C20": {
+        "module": "CqlVerif.Props.C20",
+        "claim": "theorems by kernel evaluation over behaviour tables regenerated from the real option parsers on every run (every letter-case variant of every documented spelling + near-misses): names select what they denote, are injective, unknown names rejected; Model/Config mirrors the start-up validation order",
+        "note": "trusted: Lean kernel, the tabulator (calls the real functions through verif hooks), documented-name table in Spec/Names.lean; kong/yaml parsing and the Run-level refusal are exercised by the cfg stream, not proved",
+        "technique": "Lean 4 kernel-checked table theorems over regenerated behaviour tables + differential",
+        "gens": ["config"],
+        "streams": [{"name": "names", "quick": 2000, "thorough": 100000}],
+        "shrink": False,
+        "rule": "names: every letter-case variant of every documented protocol-version spelling (v3 v4 v5 DSEv1 DSEv2 3 4 5 65 66) and near-misses, consistency names in sampled (quick) / all (thorough, and always in Gen.ConfigTables) letter cases, plus mutated names; distinct = distinct byte strings; non-trivial = all (each exercises the real parser)",
+        "trusted_base": [KERNEL, DRIVER, HARNESS,
+                         "Gen/ConfigTables.lean is regenerated on every run by calling the real parseProtocolVersion / clWrapper.UnmarshalText (hooks VerifParseProtocolVersion, VerifUnmarshalConsistency) on a finite, exhaustively covered domain",
+                         "Model/Config.lean (validation order in Run/buildNodes) is hand-written; kong/yaml parsing is library behaviour"],
+        "assumptions": ["documented spellings are those of README/--help plus their numeric forms; names are ASCII (Go's Unicode case folding of non-ASCII look-alikes is outside the table)"],
+    },
 }
+
+NOT_APPLICABLE = {}
